@@ -70,6 +70,11 @@ def cases(tier, seed):
     for stage in (1, 2, 3):
         for eps in (1.0, 2.0):
             yield "explicit_eps", dict(stage=stage, eps=eps)
+    # a catalogue made at another resolution in which ONE row lacks the psf columns (NaN): the answers for every source are the
+    # same wherever that row stands
+    for stage in (1, 2):
+        for lacking in (0, 2):
+            yield "mixedpsf", dict(stage=stage, lacking=lacking)
     # ratio = 1 is the identity whatever the catalogue's psf columns say (a catalogue made at another resolution)
     for stage in (1, 2, 3):
         for scale in (0.7, 1.25):
@@ -437,6 +442,38 @@ def ev_explicit_eps(case, ctx):
         ctx.violation("regroup_eps = %g arcmin: fitting groups %r, expected the blend (0.92' apart) together and the two isolated sources alone (%s)" % (case["eps"], groups, sig), "explicit_eps_groups|" + sig)
 
 
+def ev_mixedpsf(case, ctx):
+    d = os.environ["VERIF_SCRATCH"]
+    hdr = hdr_()
+    srcs = base_catalogue(hdr)
+    cat = [to_component(s, hdr, k) for k, s in enumerate(srcs)]
+    for k, c in enumerate(cat):
+        if k == case["lacking"]:
+            c.psf_a = c.psf_b = c.psf_pa = float("nan")
+        else:
+            c.psf_a *= 0.75
+            c.psf_b *= 0.75
+    f = os.path.join(d, "c05q.fits")
+    scenes.write_image(f, hdr, skygauss.render(hdr, SHAPE, srcs))
+    base = None
+    for perm in itertools.permutations(range(len(cat))):
+        ctx.count("mixedpsf")
+        sig = "mixedpsf:%s,stage=%d,lacking=%d" % ("".join(map(str, perm)), case["stage"], case["lacking"])
+        ctx.nontrivial(sig)
+        try:
+            out = run(f, [cat[i] for i in perm], stage=case["stage"], doregroup=True)
+        except Exception as e:
+            ctx.violation("priorized fit raised %r (%s)" % (e, sig), "raise|" + sig)
+            continue
+        ctx.outcome("mixedpsf_n=%d" % len(out))
+        if base is None:
+            base = out
+            continue
+        df = same_results(base, out)
+        if df:
+            ctx.violation("one row without psf columns: the results depend on where it stands: %s (%s)" % ("; ".join(df[:3]), sig), "mixedpsf_order|" + sig)
+
+
 def ev_otherpsf(case, ctx):
     d = os.environ["VERIF_SCRATCH"]
     hdr = hdr_()
@@ -488,4 +525,4 @@ def ev_many(case, ctx):
 
 
 def evaluate(clause, case, ctx):
-    dict(single=ev_single, edges=ev_edges, permutations=ev_permutations, badrows=ev_badrows, badrows_in_group=ev_badrows_in_group, nopsf=ev_nopsf, many=ev_many, otherpsf=ev_otherpsf, paconv=ev_paconv, explicit_eps=ev_explicit_eps)[clause](case, ctx)
+    dict(single=ev_single, edges=ev_edges, permutations=ev_permutations, badrows=ev_badrows, badrows_in_group=ev_badrows_in_group, nopsf=ev_nopsf, many=ev_many, otherpsf=ev_otherpsf, paconv=ev_paconv, explicit_eps=ev_explicit_eps, mixedpsf=ev_mixedpsf)[clause](case, ctx)
